@@ -157,6 +157,18 @@ def run_shard(sh, ctx):
 				elif v == 1:
 					lay.update(orient=[True, False, False], order=[0, 1, 2], case='upper'); cs = [S.revcomp(contigs[0]), contigs[1], contigs[2]]
 				check_variant(ctx, ks, k, prefix, [c[:200] for c in contigs], exp, cs, lay, 9000 + g, v)
+			# a highly fragmented assembly: hundreds of short contigs of different lengths, far more than 64 KiB in total, most of them
+			# with an occurrence flush with one of their ends (whatever is buffered or pooled between contigs gets re-used many times)
+			frag = []
+			while sum(len(c) for c in frag) < 200_000:
+				frag += [c for c in gen_genome(rng, k, prefix) if len(c) < 3000]
+			expf = S.signature(k, prefix, frag)
+			ctx.count('fragmented_assemblies')
+			for v in range(3):
+				cs, lay = variant(rng, frag)
+				if v == 0:
+					lay.update(orient=[False] * len(frag), order=list(range(len(frag))), case='upper'); cs = list(frag)
+				check_variant(ctx, ks, k, prefix, [c[:60] for c in frag[:8]], expf, cs, lay, 9500 + g, v)
 		return
 	for g in range(sh['ngenomes']):
 		k = rng.choice([3, 4, 5, 6, 8, 11, 12, 16])
@@ -241,7 +253,7 @@ def run_cli(sh, ctx, rng):
 def finalize(merged, tier, seed, inconclusive):
 	c = merged['counters']
 	need = ['width:1', 'width:0', 'width:61', 'eol:CRLF', 'eol:LF', 'case:mixed', 'case:lower', 'compression_arg:explicit', 'extension_disagrees_with_content',
-	        'genomes_where_concatenation_would_differ', 'orientation_order_exhaustive_genomes', 'cli_commands', 'broken_files_raised', 'gz:multi', 'chromosome_sized_contigs']
+	        'genomes_where_concatenation_would_differ', 'orientation_order_exhaustive_genomes', 'cli_commands', 'broken_files_raised', 'gz:multi', 'chromosome_sized_contigs', 'fragmented_assemblies']
 	for n in need:
 		if c.get(n, 0) == 0:
 			inconclusive.append(f'class never observed: {n}')
